@@ -249,13 +249,11 @@ pub proof fn lemma_stamped_unread(ino: Inode, t: int, gran: int)
     f.insert_before('match std :: fs :: hard_link',
                     'proof { lemma_stamped_unread(old(w).inode_at(pv(from)), w.now, w.gran); }\n        ')
     u.text('}\n')
-    u.text('}\n')
 
 
 def weave_maintenance(u):
     """collect_cached_files / apply_update / prune (C07 C17) on top of the planner's contract (U1)."""
-    u.text('pub mod raw_cache_maint {\n' + MOD_HEAD + 'use crate::benign_error::is_absent_file_error;\nuse crate::second_chance;\n'
-           'use crate::std::fs::DirEntry;\nuse crate::raw_cache::*;\n')
+    u.text('use crate::second_chance;\nuse crate::std::fs::DirEntry;\n')
     INV = ('C02 C18:valid-on-every-exit', 'final(w).inv()')
     BOOK = ('', 'final(w).kept(*old(w))')
 
@@ -275,7 +273,7 @@ def weave_maintenance(u):
 
     ic = u.item('src/raw_cache.rs', ['impl CachedFile'])
     nw = u.under_contract(ic.sub(['fn new']), ['C07', 'C09'])
-    nw.air = 'raw_cache_maint::CachedFile::new'
+    nw.air = 'raw_cache::CachedFile::new'
     nw.contract(ensures=[
         ('C07 C09:read-mark-is-atime-not-before-mtime',
          'r.entry == entry && r.mtime.wf() && r.mtime.ns() == meta.view().mtime && r.accessed == (meta.view().atime >= meta.view().mtime)'),
@@ -400,7 +398,7 @@ pub open spec fn records_ok(cache: Seq<CachedFile>, w: World, dir: PathV) -> boo
 ''')
 
     cf = u.under_contract(u.item('src/raw_cache.rs', ['fn collect_cached_files']), ['C07', 'C17', 'C05', 'C06', 'C18', 'C15', 'C02'])
-    cf.air = 'raw_cache_maint::collect_cached_files'
+    cf.air = 'raw_cache::collect_cached_files'
     cf.add_param(W)
     cf.add_arg('std :: fs :: read_dir', TW)
     cf.add_arg('entry . metadata', TW)
@@ -441,6 +439,223 @@ pub open spec fn records_ok(cache: Seq<CachedFile>, w: World, dir: PathV) -> boo
             ('C05 C18:error-is-a-missing-directory-or-a-real-fault',
              'r.is_err() ==> final(w).hard_faults > old(w).hard_faults || (absent_err(err_of(r)) && !old(w).dirs.contains(pv(cache_dir)))'),
         ])
+
+    u.text('''
+pub open spec fn rpath(c: CachedFile) -> PathV {
+    child(c.entry.dir(), c.entry.name())
+}
+
+/// C17: the only files a plan may name are regular files directly inside `dir`, outside the dot namespace.
+pub open spec fn evictable_records(s: Seq<CachedFile>, dir: PathV) -> bool {
+    forall|i: int| 0 <= i < s.len() ==> (#[trigger] s[i]).entry.dir() == dir && single_component(s[i].entry.name()) && s[i].entry.name()[0] != 0x2e
+}
+
+/// A reprieve: same file, new queue position at the back (not before the run started), read mark cleared.
+pub open spec fn restamped(a: Inode, b: Inode, old: World, fin: World) -> bool {
+    &&& b == (Inode { mtime: b.mtime, atime: b.atime, ..a })
+    &&& b.atime < b.mtime
+    &&& trunc(old.now, old.gran) <= b.mtime <= trunc(fin.now, old.gran)
+}
+
+/// What maintenance may change, on every exit (C07 C17 C02): nothing is created or re-bound, only plan
+/// victims disappear, only reprieved files are re-stamped, directories are untouched.
+pub open spec fn maint_frame(old: World, fin: World, ev: Seq<CachedFile>, mb: Seq<CachedFile>) -> bool {
+    &&& fin.dirs == old.dirs
+    &&& forall|p: PathV| #[trigger] fin.files.contains_key(p) ==> old.files.contains_key(p) && fin.files[p] == old.files[p]
+    &&& forall|p: PathV| old.files.contains_key(p) && !(#[trigger] fin.files.contains_key(p)) ==> exists|i: int| 0 <= i < ev.len() && rpath(#[trigger] ev[i]) == p
+    &&& forall|ino: InodeId| #[trigger] old.inodes.contains_key(ino) ==> fin.inodes.contains_key(ino) && (fin.inodes[ino] == old.inodes[ino] || exists|i: int|
+        0 <= i < mb.len() && old.files.contains_key(rpath(#[trigger] mb[i])) && old.files[rpath(mb[i])] == ino && restamped(old.inodes[ino], fin.inodes[ino], old, fin))
+}
+
+/// What a completed, fault-free maintenance has achieved: every victim is gone, every reprieved file
+/// that is still there sits at the back of the queue with its read mark cleared.
+pub open spec fn maint_done(old: World, fin: World, ev: Seq<CachedFile>, mb: Seq<CachedFile>) -> bool {
+    &&& forall|i: int| 0 <= i < ev.len() ==> !fin.files.contains_key(rpath(#[trigger] ev[i]))
+    &&& forall|i: int| 0 <= i < mb.len() && fin.files.contains_key(rpath(#[trigger] mb[i])) ==> restamped(old.inode_at(rpath(mb[i])), fin.inode_at(rpath(mb[i])), old, fin)
+}
+
+pub proof fn lemma_frame_refl(w: World, ev: Seq<CachedFile>, mb: Seq<CachedFile>)
+    ensures
+        maint_frame(w, w, ev, mb),
+{
+}
+
+pub proof fn lemma_restamped_later(a: Inode, b: Inode, old: World, f1: World, f2: World)
+    requires
+        restamped(a, b, old, f1),
+        f1.now <= f2.now,
+        old.gran >= 1,
+    ensures
+        restamped(a, b, old, f2),
+{
+    lemma_trunc_monotone(f1.now, f2.now, old.gran);
+}
+
+/// A step that leaves the filesystem alone (a failed call) keeps the frame.
+pub proof fn lemma_frame_same_fs(old: World, a: World, b: World, ev: Seq<CachedFile>, mb: Seq<CachedFile>)
+    requires
+        maint_frame(old, a, ev, mb),
+        b.same_fs(a),
+        a.now <= b.now,
+        old.gran >= 1,
+    ensures
+        maint_frame(old, b, ev, mb),
+{
+    assert forall|ino: InodeId| #[trigger] old.inodes.contains_key(ino) implies b.inodes.contains_key(ino) && (b.inodes[ino] == old.inodes[ino] || exists|i: int|
+        0 <= i < mb.len() && old.files.contains_key(rpath(#[trigger] mb[i])) && old.files[rpath(mb[i])] == ino && restamped(old.inodes[ino], b.inodes[ino], old, b)) by {
+        if b.inodes[ino] != old.inodes[ino] {
+            let i = choose|i: int| 0 <= i < mb.len() && old.files.contains_key(rpath(#[trigger] mb[i])) && old.files[rpath(mb[i])] == ino && restamped(old.inodes[ino], a.inodes[ino], old, a);
+            lemma_restamped_later(old.inodes[ino], a.inodes[ino], old, a, b);
+        }
+    }
+}
+
+/// Unlinking a plan victim keeps the frame.
+pub proof fn lemma_frame_unlink(old: World, a: World, b: World, ev: Seq<CachedFile>, mb: Seq<CachedFile>, k: int)
+    requires
+        maint_frame(old, a, ev, mb),
+        0 <= k < ev.len(),
+        b.files == a.files.remove(rpath(ev[k])),
+        b.dirs == a.dirs,
+        b.inodes == a.inodes,
+        a.now <= b.now,
+        old.gran >= 1,
+    ensures
+        maint_frame(old, b, ev, mb),
+{
+    assert forall|p: PathV| old.files.contains_key(p) && !(#[trigger] b.files.contains_key(p)) implies exists|i: int| 0 <= i < ev.len() && rpath(#[trigger] ev[i]) == p by {
+        if a.files.contains_key(p) {
+            assert(p == rpath(ev[k]));
+        }
+    }
+    assert forall|ino: InodeId| #[trigger] old.inodes.contains_key(ino) implies b.inodes.contains_key(ino) && (b.inodes[ino] == old.inodes[ino] || exists|i: int|
+        0 <= i < mb.len() && old.files.contains_key(rpath(#[trigger] mb[i])) && old.files[rpath(mb[i])] == ino && restamped(old.inodes[ino], b.inodes[ino], old, b)) by {
+        if b.inodes[ino] != old.inodes[ino] {
+            let i = choose|i: int| 0 <= i < mb.len() && old.files.contains_key(rpath(#[trigger] mb[i])) && old.files[rpath(mb[i])] == ino && restamped(old.inodes[ino], a.inodes[ino], old, a);
+            lemma_restamped_later(old.inodes[ino], a.inodes[ino], old, a, b);
+        }
+    }
+}
+
+/// Re-stamping a reprieved file keeps the frame, and that file is now `restamped`.
+pub proof fn lemma_frame_restamp(old: World, a: World, b: World, ev: Seq<CachedFile>, mb: Seq<CachedFile>, k: int)
+    requires
+        maint_frame(old, a, ev, mb),
+        0 <= k < mb.len(),
+        a.files.contains_key(rpath(mb[k])),
+        old.env_ok(),
+        b.only_inode_changed(a, a.files[rpath(mb[k])], stamped(a.inode_at(rpath(mb[k])), b.now, old.gran)),
+        old.now <= a.now <= b.now,
+        1 <= old.gran <= 2 * ns_per_sec(),
+    ensures
+        maint_frame(old, b, ev, mb),
+        restamped(old.inode_at(rpath(mb[k])), b.inode_at(rpath(mb[k])), old, b),
+{
+    let p = rpath(mb[k]);
+    let x = a.files[p];
+    assert(old.files.contains_key(p) && old.files[p] == x);
+    lemma_stamped_unread(a.inodes[x], b.now, old.gran);
+    lemma_trunc_monotone(old.now, b.now, old.gran);
+    assert(b.inodes[x] == stamped(a.inodes[x], b.now, old.gran));
+    if a.inodes[x] != old.inodes[x] {
+        let i = choose|i: int| 0 <= i < mb.len() && old.files.contains_key(rpath(#[trigger] mb[i])) && old.files[rpath(mb[i])] == x && restamped(old.inodes[x], a.inodes[x], old, a);
+    }
+    assert(restamped(old.inodes[x], b.inodes[x], old, b));
+    assert forall|ino: InodeId| #[trigger] old.inodes.contains_key(ino) implies b.inodes.contains_key(ino) && (b.inodes[ino] == old.inodes[ino] || exists|i: int|
+        0 <= i < mb.len() && old.files.contains_key(rpath(#[trigger] mb[i])) && old.files[rpath(mb[i])] == ino && restamped(old.inodes[ino], b.inodes[ino], old, b)) by {
+        if ino == x {
+            assert(old.files.contains_key(rpath(mb[k])) && old.files[rpath(mb[k])] == ino);
+        } else if b.inodes[ino] != old.inodes[ino] {
+            assert(b.inodes[ino] == a.inodes[ino]);
+            let i = choose|i: int| 0 <= i < mb.len() && old.files.contains_key(rpath(#[trigger] mb[i])) && old.files[rpath(mb[i])] == ino && restamped(old.inodes[ino], a.inodes[ino], old, a);
+            lemma_restamped_later(old.inodes[ino], a.inodes[ino], old, a, b);
+        }
+    }
+}
+
+/// Entries re-stamped earlier stay `restamped` after a later step that only re-stamps (or leaves alone).
+pub proof fn lemma_restamped_prefix(old: World, a: World, b: World, mb: Seq<CachedFile>, n: int, x: InodeId, complete: bool)
+    requires
+        0 <= n <= mb.len(),
+        complete ==> forall|i: int| 0 <= i < n && a.files.contains_key(rpath(#[trigger] mb[i])) ==> restamped(old.inode_at(rpath(mb[i])), a.inode_at(rpath(mb[i])), old, a),
+        b.files == a.files,
+        forall|ino: InodeId| ino != x ==> #[trigger] b.inodes[ino] == a.inodes[ino],
+        forall|p: PathV| #[trigger] a.files.contains_key(p) ==> old.files.contains_key(p) && a.files[p] == old.files[p],
+        restamped(old.inodes[x], b.inodes[x], old, b) || b.inodes[x] == a.inodes[x],
+        a.now <= b.now,
+        old.gran >= 1,
+    ensures
+        complete ==> forall|i: int| 0 <= i < n && b.files.contains_key(rpath(#[trigger] mb[i])) ==> restamped(old.inode_at(rpath(mb[i])), b.inode_at(rpath(mb[i])), old, b),
+{
+    if !complete {
+        return ;
+    }
+    assert forall|i: int| 0 <= i < n && b.files.contains_key(rpath(#[trigger] mb[i])) implies restamped(old.inode_at(rpath(mb[i])), b.inode_at(rpath(mb[i])), old, b) by {
+        let p = rpath(mb[i]);
+        assert(a.files.contains_key(p));
+        let ino = a.files[p];
+        assert(old.files[p] == ino);
+        if ino == x && b.inodes[x] != a.inodes[x] {
+        } else {
+            lemma_restamped_later(old.inodes[ino], a.inodes[ino], old, a, b);
+        }
+    }
+}
+''')
+
+    au = u.under_contract(u.item('src/raw_cache.rs', ['fn apply_update']), ['C07', 'C17', 'C02', 'C05', 'C06', 'C09', 'C18', 'C15'])
+    au.air = 'raw_cache::apply_update'
+    au.add_param(W)
+    au.add_arg('ensure_file_removed', TW)
+    au.add_arg('move_to_back_of_list', TW)
+    au.contract(
+        requires=[('', 'old(w).inv()'),
+                  ('C17 C16 C15:plan-names-only-evictable-files-of-a-configured-cache-directory',
+                   'old(w).cache_dirs.contains(pbv(parent)) && (forall|n: Seq<u8>| !old(w).under_ro(#[trigger] child(pbv(parent), n))) '
+                   '&& evictable_records(update.to_evict@, pbv(parent)) && evictable_records(update.to_move_back@, pbv(parent))')],
+        ensures=[
+            INV, BOOK,
+            ('C07 C17 C02:maintenance-frame-on-every-exit', 'maint_frame(*old(w), *final(w), update.to_evict@, update.to_move_back@)'),
+            ('C07:plan-fully-applied', 'r.is_ok() && final(w).hard_faults == old(w).hard_faults ==> maint_done(*old(w), *final(w), update.to_evict@, update.to_move_back@)'),
+            ('C06:linear-number-of-filesystem-calls', 'final(w).steps <= old(w).steps + update.to_evict@.len() + update.to_move_back@.len() && final(w).opens == old(w).opens && final(w).published == old(w).published'),
+            ('C05 C18:error-is-a-real-fault', 'r.is_err() ==> final(w).hard_faults > old(w).hard_faults'),
+        ])
+    au.body_start('broadcast use group_asref;\n    let ghost dir = pbv(parent);\n    let ghost ev = update.to_evict@;\n    let ghost mb = update.to_move_back@;')
+    au.insert_after('for entry in', ' it1:', nth=0)
+    au.loop_contract(0, invariant=[
+        ('', 'old(w).inv() && w.inv() && w.kept(*old(w)) && pbv(cached) == dir && it1.seq() == ev && w.cache_dirs.contains(dir) && ev == update.to_evict@ && mb == update.to_move_back@'),
+        ('', '(forall|n: Seq<u8>| !w.under_ro(#[trigger] child(dir, n))) && evictable_records(ev, dir) && evictable_records(mb, dir)'),
+        ('C07 C17 C02:maintenance-frame-on-every-exit', 'maint_frame(*old(w), *w, ev, mb) && w.inodes == old(w).inodes && w.now == old(w).now'),
+        ('C07:victims-so-far-are-gone', 'w.hard_faults == old(w).hard_faults ==> forall|i: int| 0 <= i < it1.index() ==> !w.files.contains_key(rpath(#[trigger] ev[i]))'),
+        ('C06:linear-number-of-filesystem-calls', 'w.steps <= old(w).steps + it1.index() && w.opens == old(w).opens && w.published == old(w).published'),
+    ])
+    au.insert_before('cached . push', 'broadcast use group_asref;\n        proof { lemma_child(dir, entry.entry.name()); }\n        ', nth=0)
+    au.insert_before('cached . push', 'broadcast use group_asref;\n        proof { lemma_child(dir, entry.entry.name()); }\n        ', nth=1)
+    au.insert_before('ensure_file_removed ( & cached ) ? ;', 'let ghost wa = *w;\n        ', nth=0)
+    au.insert_after('ensure_file_removed ( & cached ) ? ;',
+                    '\n        proof { assert(rpath(ev[it1.index() as int]) == pbv(cached)); lemma_frame_unlink(*old(w), wa, *w, ev, mb, it1.index() as int); }', nth=0)
+    au.insert_after('for entry in', ' it2:', nth=1)
+    au.insert_before('for entry in update . to_move_back', 'let ghost w1 = *w;\n    ')
+    au.loop_contract(1, invariant=[
+        ('', 'old(w).inv() && w.inv() && w.kept(*old(w)) && pbv(cached) == dir && it2.seq() == mb && w.cache_dirs.contains(dir) && ev == update.to_evict@ && mb == update.to_move_back@'),
+        ('', '(forall|n: Seq<u8>| !w.under_ro(#[trigger] child(dir, n))) && evictable_records(ev, dir) && evictable_records(mb, dir)'),
+        ('C07 C17 C02:maintenance-frame-on-every-exit', 'maint_frame(*old(w), *w, ev, mb) && w.files == w1.files'),
+        ('C07:victims-so-far-are-gone', 'w.hard_faults == old(w).hard_faults ==> forall|i: int| 0 <= i < ev.len() ==> !w.files.contains_key(rpath(#[trigger] ev[i]))'),
+        ('C07 C09:reprieved-so-far-are-restamped',
+         'w.hard_faults == old(w).hard_faults ==> forall|i: int| 0 <= i < it2.index() && w.files.contains_key(rpath(#[trigger] mb[i])) ==> '
+         'restamped(old(w).inode_at(rpath(mb[i])), w.inode_at(rpath(mb[i])), *old(w), *w)'),
+        ('C06:linear-number-of-filesystem-calls', 'w.steps <= old(w).steps + ev.len() + it2.index() && w.opens == old(w).opens && w.published == old(w).published'),
+    ])
+    au.insert_before('match move_to_back_of_list', 'let ghost wb = *w;\n        let ghost idx = it2.index() as int;\n        ')
+    au.insert_after('Ok ( ( ) ) => {',
+                    ' proof { assert(rpath(mb[idx]) == pbv(cached)); lemma_frame_restamp(*old(w), wb, *w, ev, mb, idx); '
+                    'lemma_restamped_prefix(*old(w), wb, *w, mb, idx, wb.files[rpath(mb[idx])], w.hard_faults == old(w).hard_faults); } ')
+    au.insert_after('Err ( e ) if is_absent_file_error ( & e ) => {',
+                    ' proof { assert(rpath(mb[idx]) == pbv(cached)); lemma_frame_same_fs(*old(w), wb, *w, ev, mb); '
+                    'lemma_restamped_prefix(*old(w), wb, *w, mb, idx, 0, w.hard_faults == old(w).hard_faults); } ')
+    au.insert_before('err => err ?', '', nth=0)
+    au.insert_after('err =>', ' { proof { lemma_frame_same_fs(*old(w), wb, *w, ev, mb); assert(idx < mb.len()); } ', nth=0)
+    au.insert_after('err => err ?', ' }', nth=0)
     u.text('}\n')
 
 
@@ -565,10 +780,10 @@ def build(u):
     u.prelude('trigger_env.rs')
     _unit('u2_trigger').weave_trigger(u, props=['C10'])
     weave_benign(u)
-    weave_raw_leaves(u)
     u.prelude('std_vec.rs')
     u.prelude('clock.rs')
     _unit('u1_planner').weave_planner(u, ['C07', 'C08'])
+    weave_raw_leaves(u)
     weave_maintenance(u)
     weave_cache_dir_head(u)
     return u
